@@ -57,7 +57,7 @@ CLAIMS = {
  "C08": dict(
     technique="Kani/CBMC inductive role invariant over handlers and BMCA; emission guards per handler",
     text="Every emitting handler is run from every port state: Announce/Sync/Follow_Up/Delay_Resp only leave a Master port, end-to-end Delay_Req only a Slave port; "
-         "BMCA yields S1 only for the port that received Ebest (never master-only or faulty; at most one S1 over two ports in the thorough tier), no Master under slave-only, and the filter is demobilized exactly when a port leaves slave/faulty.",
+         "BMCA yields S1 only for the port that received Ebest (never master-only or faulty; at most one S1 over two ports in the thorough tier), no Master under slave-only (additionally every decision M1/M2/M3/P1/P2/S1 is applied to one port from every port state in the quick tier, c08_apply_recommendation, because a one-port instance never receives M3/P2), and the filter is demobilized exactly when a port leaves slave/faulty.",
     note="Trusted: Kani/CBMC. " + STUBS + " Clock commands of the real Kalman filter on non-slave ports are argued from the filter swap, not model-checked.",
     ref="4/C08"),
  "C09": dict(
